@@ -23,9 +23,9 @@ def gen_secdefs(rng):
     out = []
     for _ in range(rng.randint(0, 4)):
         if rng.random() < 0.55:
-            out.append(["lines", rng.randint(0, 3)])
+            out.append(["lines", rng.randint(0, 3), rng.choice("tthn")])
         else:
-            out.append(["until", rng.choice(bl.PATTERN_POOL)])
+            out.append(["until", rng.choice(bl.PATTERN_POOL), rng.choice("tthn")])
     return out
 
 
@@ -105,7 +105,7 @@ class CHECK(Check):
             if content[pos: pos + len(raw)] != raw:
                 return "element %d does not start where the previous one stopped" % i
             if idx >= 0:
-                kind, arg = case["secs"][idx]
+                kind, arg = case["secs"][idx][0], case["secs"][idx][1]
                 lines = nl_lines(content[pos:])
                 if kind == "lines":
                     exp = "".join(lines[:arg])
